@@ -484,6 +484,7 @@ func Now() time.Duration { return time.Since(cur.start) }
 func Sleep(d time.Duration) {
 	Yield("sleep")
 	time.Sleep(d)
+	Yield("wake") // a woken task is not the released one; become it again before going on
 }
 
 // Step is the current step number.
